@@ -270,6 +270,16 @@ class _Method:
             return True
         return False
 
+    @staticmethod
+    def _typed_bytes(v: ast.expr) -> bool:
+        """an expression whose elements are known to be integers in 0..255"""
+        if isinstance(v, ast.Call) and isinstance(v.func, ast.Name) and v.func.id == 'array' and v.args \
+                and isinstance(v.args[0], ast.Constant) and v.args[0].value == 'B':
+            return True
+        if isinstance(v, ast.Subscript) and isinstance(v.slice, ast.Slice) and _is_slot(v.value, None, '_data'):
+            return True
+        return False
+
     def raise_exits(self, s: ast.stmt, st: _St) -> list[tuple[str, _St]]:
         """The states in which statement `s` can be left by an exception, BEFORE it has any effect of its own: one exit
         per explicit `raise`, `assert`, import and per call that can raise; `self.load()` contributes the exits of load()."""
@@ -278,6 +288,17 @@ class _Method:
         out: list[tuple[str, _St]] = []
         if isinstance(s, (ast.Assert, ast.Import, ast.ImportFrom)):
             out.append(('raise', st.copy()))
+        if isinstance(s, ast.Assign):
+            # several elements of the pixel array stored by one statement (`[d[o], d[o + 1], ...] = value`): an array('B')
+            # rejects an element that is not an integer in 0..255, so the statement can raise after the first elements
+            # were stored - unless the value is itself an array('B') (already validated) or a slice of a pixel array
+            for t in s.targets:
+                if isinstance(t, (ast.Tuple, ast.List)):
+                    elems = [e for e in t.elts if isinstance(e, ast.Subscript) and _is_slot(e.value, 'self', '_data')]
+                    if len(elems) > 1 and not self._typed_bytes(s.value):
+                        st2 = st.copy()
+                        st2.mod = True
+                        out.append(('raise', st2))
         for e in self._own_exprs(s):
             for c in ast.walk(e):
                 if not isinstance(c, ast.Call) or self._cannot_raise(c):
@@ -460,6 +481,84 @@ def _external_stores(tree: ast.Module) -> list[tuple[str, str, str]]:
     return sorted(set(out))
 
 
+MUTATING_CALLS = {'pop', 'popitem', 'clear', 'update', 'setdefault', 'append', 'extend', 'insert', 'remove', 'sort', 'reverse', 'add', 'discard',
+                  '__setitem__', '__delitem__', '__setattr__', '__delattr__'}
+
+
+def _vtf_self_stores(vtf: ast.ClassDef) -> list[tuple[str, str]]:
+    """Every place where a method of class VTF other than __init__ changes the object itself: (method, attribute) for
+    `self.<a> = / += / del`, `self.<a>[...] = / del`, a mutating method called on `self.<a>`, setattr(self, ...).
+    (Frames are changed through their own methods and the two external stores of the census above.)"""
+    out = []
+    # attributes that hold a Frame (assigned `Frame(...)` in __init__): calling a method on them is a Frame method call, covered by the
+    # effect tables and exits of class Frame
+    frame_attrs = set()
+    for fn in vtf.body:
+        if isinstance(fn, ast.FunctionDef) and fn.name == '__init__':
+            for n in ast.walk(fn):
+                if isinstance(n, ast.Assign) and isinstance(n.value, ast.Call) and ast.unparse(n.value.func) == 'Frame':
+                    for t in n.targets:
+                        if isinstance(t, ast.Attribute) and isinstance(t.value, ast.Name) and t.value.id == 'self':
+                            frame_attrs.add(t.attr)
+    for fn in vtf.body:
+        if not isinstance(fn, (ast.FunctionDef, ast.AsyncFunctionDef)) or fn.name == '__init__':
+            continue
+        args = [a.arg for a in fn.args.posonlyargs + fn.args.args]
+        if not args or any(isinstance(d, ast.Name) and d.id in ('classmethod', 'staticmethod') for d in fn.decorator_list):
+            continue
+        me = args[0]
+
+        def own(node) -> str | None:
+            """`self.<a>` or `self.<a>[...]` -> a"""
+            if isinstance(node, ast.Subscript):
+                node = node.value
+            if isinstance(node, ast.Attribute) and isinstance(node.value, ast.Name) and node.value.id == me:
+                return node.attr
+            return None
+        for n in ast.walk(fn):
+            tgts = []
+            if isinstance(n, ast.Assign):
+                tgts = list(n.targets)
+            elif isinstance(n, (ast.AugAssign, ast.AnnAssign)):
+                tgts = [n.target] if getattr(n, 'value', True) is not None else []
+            elif isinstance(n, ast.Delete):
+                tgts = list(n.targets)
+            elif isinstance(n, (ast.For, ast.AsyncFor)):
+                tgts = [n.target]
+            elif isinstance(n, (ast.With, ast.AsyncWith)):
+                tgts = [i.optional_vars for i in n.items if i.optional_vars is not None]
+            elif isinstance(n, ast.NamedExpr):
+                tgts = [n.target]
+            flat = []
+            while tgts:
+                t = tgts.pop()
+                if isinstance(t, (ast.Tuple, ast.List)):
+                    tgts += t.elts
+                elif isinstance(t, ast.Starred):
+                    tgts.append(t.value)
+                else:
+                    flat.append(t)
+            for t in flat:
+                a = own(t)
+                if a is not None:
+                    out.append((fn.name, a))
+            if isinstance(n, ast.Call):
+                f = n.func
+                if isinstance(f, ast.Attribute) and f.attr in MUTATING_CALLS and own(f.value) is not None \
+                        and not (isinstance(f.value, ast.Attribute) and own(f.value) in frame_attrs):
+                    out.append((fn.name, own(f.value)))
+                if isinstance(f, ast.Name) and f.id in ('setattr', 'delattr') and n.args and isinstance(n.args[0], ast.Name) and n.args[0].id == me:
+                    out.append((fn.name, 'setattr'))
+                if isinstance(f, ast.Attribute) and f.attr in ('__setattr__', '__delattr__') and n.args \
+                        and isinstance(n.args[0], ast.Name) and n.args[0].id == me:
+                    out.append((fn.name, 'setattr'))
+                if isinstance(f, ast.Name) and f.id == 'vars' or (isinstance(f, ast.Attribute) and f.attr == '__dict__'):
+                    out.append((fn.name, '__dict__'))
+            if isinstance(n, ast.Attribute) and n.attr == '__dict__' and isinstance(n.value, ast.Name) and n.value.id == me:
+                out.append((fn.name, '__dict__'))
+    return sorted(set(out))
+
+
 def _guard(test: ast.expr, var: str) -> str:
     s = ast.unparse(test)
     d, f = f'{var}._data is None', f'{var}._fileinfo is None'
@@ -638,7 +737,7 @@ def frame_info() -> dict:
     for need in ('compute_mipmaps', 'save'):
         if need not in vm:
             raise TranslateError(f'VTF.{need} not found')
-    return {'tables': tables, 'raise_tables': rtables, 'unloaded_reads': unloaded, 'external': _external_stores(tree),
+    return {'tables': tables, 'raise_tables': rtables, 'unloaded_reads': unloaded, 'external': _external_stores(tree), 'vtf_self_stores': _vtf_self_stores(vtf),
             'compute': _compute_mipmaps(vm['compute_mipmaps']), 'save': _save_frames(vm['save'])}
 
 
@@ -673,6 +772,9 @@ def translate_frame() -> tuple[str, dict]:
     L.append('(* stores to the slots outside class Frame: (function, slot, kind) *)')
     L.append('Definition gen_external_stores : list (string * string * string) := ['
              + '; '.join(f'("{f}", "{s}", "{k}")' for f, s, k in info['external']) + '].')
+    L.append('(* places where a method of VTF other than __init__ changes an attribute of the object itself: (method, attribute) *)')
+    L.append('Definition gen_vtf_self_stores : list (string * string) := ['
+             + '; '.join(f'("{f}", "{a}")' for f, a in info['vtf_self_stores']) + '].')
     cm, sv = info['compute'], info['save']
     L.append(f'(* VTF.compute_mipmaps, vtf.py:{cm["line"]}; VTF.save, vtf.py:{sv["line"]} *)')
     L.append('Definition gen_chaincfg : chaincfg := {|')
@@ -682,7 +784,7 @@ def translate_frame() -> tuple[str, dict]:
     L.append('')
     side = {'tables': {n: {f'{int(k[0])}{int(k[1])}': v for k, v in tb.items()} for n, tb in t.items()},
             'raise_tables': {n: {f'{int(k[0])}{int(k[1])}': v for k, v in tb.items()} for n, tb in info['raise_tables'].items()},
-            'unloaded_reads': info['unloaded_reads'], 'external': info['external'], 'compute': cm, 'save': sv}
+            'unloaded_reads': info['unloaded_reads'], 'external': info['external'], 'vtf_self_stores': info['vtf_self_stores'], 'compute': cm, 'save': sv}
     return '\n'.join(L), side
 
 
